@@ -161,6 +161,52 @@ CLAIMS = {
              "function, which only the tie can show. Trusted: Lean kernel, harness `query`/`qfresh`.",
         technique="Lean 4 proof (functional model) + differential correspondence re-used vs fresh context",
         ref="DESIGN.md section 6 C19"),
+    "C12": dict(
+        text="The model keeps ONE structure (inductive trees with ids: children and attributes), so parent/child/sibling views agree by "
+             "construction; kernel-checked: inserting a node beneath itself or a descendant is refused for every state, a refused call "
+             "changes nothing. Monitor (the deciding part for the real code's REDUNDANT state — child vectors, parent ids, id map): after "
+             "every step of every history, for every live node, parent_node vs child_nodes, first/last child, previous/next sibling, "
+             "has_child, no node twice or beneath itself, detached roots without parent, at most one document element/doctype, read "
+             "from the real navigation views. Tie: status and tree dump equal the model's after every step.",
+        note="Partial proof: preservation of id-distinctness by every operation (`inv_step`, `inv_history`) is stated in DESIGN.md and not "
+             "yet proved; the model's agreement with the code is established on the histories of each run. Foreign documents and "
+             "document fragments are not in the generated histories. Trusted: Lean kernel, model Dom.lean, harness `dom`.",
+        technique="Lean 4 proof (partial) + monitor on the implementation's navigation views + differential correspondence of edit histories",
+        ref="DESIGN.md section 6 C12"),
+    "C13": dict(
+        text="Kernel-checked for EVERY state and EVERY call of the model (25 operations): a call that fails with any exception, or by the "
+             "recorded factory panic, leaves the document tree and all detached trees exactly as they were. The model `Dom.step` is the "
+             "DOM Level 1 reading of each mutator (effect incl. moving an attached node, replace = remove + insert with restore, "
+             "exception classes and their order). Tie/monitor: histories with receivers/arguments of every kind and position and "
+             "markup-significant strings: no panic, failed call leaves the dump unchanged, status and full dump (with node identities) "
+             "equal the model's after every call.",
+        note="The per-operation effect statements are the model's definitions (checked against the code by the tie), not separately "
+             "characterised yet. `normalize`, document fragments and foreign documents are not generated. Known finding factory-panic.",
+        technique="Lean 4 proof (case analysis over all operations) + differential correspondence with full state dumps after every call",
+        ref="DESIGN.md section 6 C13"),
+    "C14": dict(
+        text="The library rebuilds the order vector from the tree after every structural edit; the model defines a node's key as its "
+             "position in that pre-order walk. Kernel-checked for every state: attached nodes have non-zero keys, keys are 1..n along "
+             "the walk element -> attributes -> value items -> children (strictly increasing, distinct) when ids are distinct, every "
+             "node outside the document tree has key 0. Monitor after every step of every history on the real code: order() along "
+             "the real walk strictly increasing and non-zero, 0 for detached nodes; 9 queries give the same answer on the edited "
+             "document and on from_raw(to_string()).",
+        note="The 'consequently' (query equality) is established by the monitor only, on node numbering that ignores text-node "
+             "segmentation. Known finding default-attr-order (defaulted attributes have key 0) is outside the generated histories "
+             "(no DTD). Trusted: Lean kernel, harness `dom`.",
+        technique="Lean 4 proof (index lemmas on the pre-order id list) + monitor on order keys and query equality after every edit",
+        ref="DESIGN.md section 6 C14"),
+    "C15": dict(
+        text="The model's validity predicates are the grammar productions generated from the source (char_data, comment, cdsect, pi, "
+             "att_value, qname) — the ones the library validates with. Kernel-checked: closed form of what char_data accepts (all Chars "
+             "but '<' '&', no ']]>'), every data edit that succeeds stored data that passed the predicate for the node's kind evaluated "
+             "on the OUTCOME of the edit (so sequences arising from combining harmless pieces are refused), a refused edit changes "
+             "nothing. Monitor after every step: to_string() is accepted by from_raw with nothing left and its dump equals the DOM's "
+             "own dump. Tie: status and dump vs the model.",
+        note="Partial proof: closed forms for comment/CDATA/PI/attribute-value validity and preservation of a global 'printable' invariant "
+             "by every operation are not yet proved (tie + monitor cover them). Known finding factory-panic.",
+        technique="Lean 4 proof (partial; grammar-derived validity predicates) + re-parse monitor after every successful call + differential correspondence",
+        ref="DESIGN.md section 6 C15"),
 }
 
 PENDING_REASON = "check not built yet (work in progress; see DESIGN.md section 10 build order)"
